@@ -204,7 +204,7 @@ class BocWireWorld(World):
         data, roots, order, size = do_encode(cells, f)
         for o in ops:
             if o['op'] == 'deliver':
-                self._deliver(ctx, cells, f, data, roots, o['fault'], enc, record=True)
+                self._deliver(ctx, cells, f, data, roots, o['fault'], enc, record=True, times=o.get('times', 1))
 
     def _freedom_probes(self, ctx, f, order, size):
         if f['magic'] != 'generic':
@@ -226,8 +226,11 @@ class BocWireWorld(World):
         if any(c.mask >= 2 for c in order):
             ctx.probe('level-mask>=2')
 
-    def _deliver(self, ctx, cells, f, data, roots, fault, enc_op, record=False):
+    def _deliver(self, ctx, cells, f, data, roots, fault, enc_op, record=False, times=None):
         kind = fault['kind']
+        if times is None:
+            # every 37th damaged input is delivered twice (a duplicating medium): the verdict must not change
+            times = 2 if (kind != 'none' and (ctx.evals + 1) % 37 == 0) else 1
         if kind == 'badref':
             damaged = do_encode(cells, f, ref_override={(fault['cell'], fault['slot']): fault['value']})[0]
         else:
@@ -236,12 +239,14 @@ class BocWireWorld(World):
             ctx.fault(kind)
         ctx.evaluated(1)
         if record:
-            ctx.op({'op': 'deliver', 'fault': fault})
+            ctx.op({'op': 'deliver', 'fault': fault, 'times': times})
         ok, res = call(Cell.from_boc, damaged)
-        if kind != 'none' and not ok and (ctx.evals % 37) == 0:
-            # duplicate delivery of the same damaged bytes: the verdict must not change
+        for _ in range(times - 1):
+            if ok:
+                break
             ctx.fault('duplicate')
             ok, res = call(Cell.from_boc, damaged)
+        self._times = times
         if kind == 'none':
             klass = self._freedom_class(f, roots)
             if not ok:
@@ -276,7 +281,7 @@ class BocWireWorld(World):
 
     def _fail(self, ctx, enc_op, fault, invariant, klass, msg):
         keep = list(ctx.ops)
-        ctx.ops = [enc_op, {'op': 'deliver', 'fault': fault}]
+        ctx.ops = [enc_op, {'op': 'deliver', 'fault': fault, 'times': getattr(self, '_times', 1)}]
         try:
             self.V(ctx, invariant, 'from_boc', klass, msg)
         finally:
